@@ -381,10 +381,12 @@ Fixpoint c04_scan (c : cfg) (i : nat) (kept : list (Z * minput)) (prev : obs) (t
           else [])
       (* 408: while the recovery goes on (recovering before and after the step, logged on, no store reset in the step) every
          kept message whose number has not been reached stays kept: asking for the next chunk, a gap fill, a duplicate, a
-         rejected message or a timer never empties the stash *)
+         rejected message or a timer never empties the stash.  A kept message that was next in sequence has been processed
+         even when it did not advance the expected number -- a kept gap fill whose NewSeqNo is not above its own number is
+         rejected (or changes nothing) --, so only keys strictly above the new expected number are demanded *)
       ++ (if sh_is_resend (ob_st prev) && sh_logged_on (ob_st prev) && sh_is_resend (ob_st o) && sh_logged_on (ob_st o)
              && negb (has_reset (ob_cbs o)) then
-            flat_map (fun k => if (ob_tgt o <=? k) && negb (existsb (Z.eqb k) (stash_keys (ob_st o))) then [(i, 408)] else [])
+            flat_map (fun k => if (ob_tgt o <? k) && negb (existsb (Z.eqb k) (stash_keys (ob_st o))) then [(i, 408)] else [])
                      (stash_keys (ob_st prev))
           else [])
       (* 407: while recovering, a sequence-gated message above the expected number that passes the header checks is kept
